@@ -12,7 +12,7 @@ func init() { register("C13", checkC13) }
 
 // entityIDSources: what IdentityProvider.GetEntityID(ctx) is made of: the configured metadata endpoint and
 // the issuer stored in the request context.
-var entityIDSources = []string{"param:*/p.metadataEndpoint.path", "param:*/p.metadataEndpoint.url", "ext:iface:context.Context.Value#0", "const:/", "param:*/p.identityProvider.metadataEndpoint.*", "param:*/i.metadataEndpoint.*"}
+var entityIDSources = []string{"param:*/#0.metadataEndpoint.path", "param:*/#0.metadataEndpoint.url", "ext:iface:context.Context.Value#0", "const:*", "param:*/#0.identityProvider.metadataEndpoint.*"}
 
 // checkStatusGlobals (R-WHO): the exported StatusCode* variables are never assigned, and StatusCodeSuccess is
 // read only by the Success constructors.
@@ -141,7 +141,7 @@ func checkC13(cx *Ctx, r *Report) {
 	if timeS != nil {
 		okG := false
 		if mc, isCall := timeS.Arg["logic"].(*ssa.Call); isCall && len(mc.Call.Args) >= 2 {
-			okG = cx.getterSuffix(mc.Call.Args[0], "logoutRequest.IssueInstant") && cx.getterSuffix(mc.Call.Args[1], "logoutRequest.NotOnOrAfter")
+			okG = cx.getterSuffix(mc.Call.Args[0], "<samlp.LogoutRequestType>.IssueInstant") && cx.getterSuffix(mc.Call.Args[1], "<samlp.LogoutRequestType>.NotOnOrAfter")
 		}
 		r.Check(okG, "R-GUARD", "slo:time:bounds", timeS.Pos, "lower bound = IssueInstant, upper bound = NotOnOrAfter of the decoded request", "the time-window step does not use IssueInstant as lower and NotOnOrAfter as upper bound of the decoded request")
 		cx.checkTimeWindow(r, "R-GUARD")
@@ -174,15 +174,18 @@ func checkC13(cx *Ctx, r *Report) {
 		}
 		cx.checkEmitExactlyOne(r, "R-EMIT", "slo:callback:"+stepName(cx, s), ef)
 		// the reply of a callback is a failed logout response
-		okF := false
-		for _, c := range callsIn(ef) {
-			if f := calleeOf(c); f != nil && w.FuncKey(f) == "provider.(*LogoutResponse).sendBackLogoutResponse" {
-				if mc, isCall := c.Common().Args[2].(*ssa.Call); isCall {
-					if mf := calleeOf(mc); mf != nil && w.FuncKey(mf) == "provider.(*LogoutResponse).makeFailedLogoutResponse" {
-						okF = true
-					}
+		okF := true
+		es := cx.emitSummaryOf(ef, nil)
+		for _, p := range es.Paths {
+			for i, a := range p.Acts {
+				if !p.Failed[i] && !cx.isErrorReply(a.Call) {
+					okF = false
 				}
 			}
+		}
+		// and the failed response is a failed *logout* response
+		if len(w.callsTo(s.EScp, matchFnKey(w, "provider.(*LogoutResponse).makeFailedLogoutResponse"))) == 0 {
+			okF = false
 		}
 		r.Check(okF, "R-ORDER", "slo:callback-failed:"+stepName(cx, s), w.FnPos(ef), "answers with a failed LogoutResponse", "an error callback of the logout chain does not answer with makeFailedLogoutResponse")
 	}
@@ -205,7 +208,6 @@ func checkC13(cx *Ctx, r *Report) {
 		{"provider.LogoutResponseForm", "RelayState", []string{formRS}, []string{formRS}, true},
 		{"provider.LogoutResponse", "RelayState", []string{formRS}, []string{formRS}, true},
 		{"provider.LogoutResponse", "Issuer", entityIDSources, []string{"ext:iface:context.Context.Value#0"}, false},
-		{"saml.NameIDType", "Text", entityIDSources, []string{"ext:iface:context.Context.Value#0"}, false},
 	} {
 		ls, sites := vf.FieldStoreSources(s.owner, s.field)
 		key := "slo:" + s.owner + "." + s.field
@@ -215,7 +217,12 @@ func checkC13(cx *Ctx, r *Report) {
 		}
 		r.checkSources("R-VFG", key, w.InstrPos(sites[0]), vf.Deep(ls), s.allow, s.req, s.unchanged)
 	}
-	// the Issuer of the message is the Issuer field of LogoutResponse (getIssuer(r.Issuer))
+	// the Issuer of the message
+	if li, n := vf.NestedFieldSources("samlp.LogoutResponseType", "Issuer", "saml.NameIDType", "Text"); n == 0 {
+		r.Fail("R-VFG", "slo:LogoutResponseType.Issuer.Text", "", "the LogoutResponse gets no Issuer")
+	} else {
+		r.checkSources("R-VFG", "slo:LogoutResponseType.Issuer.Text", "", li, entityIDSources, []string{"ext:iface:context.Context.Value#0"}, false)
+	}
 	ls, sites := vf.CallArgSources(matchStorage("GetEntityByID"), 1)
 	if len(sites) > 0 {
 		r.checkSources("R-VFG", "slo:GetEntityByID:entityID", w.InstrPos(sites[0]), ls, []string{"decoded:samlp.LogoutRequestType.Issuer.Text"}, []string{"decoded:samlp.LogoutRequestType.Issuer.Text"}, true)
